@@ -21,6 +21,12 @@ def plan(ctx):
                               bounds="key: pool of 15 (index symbolic) or a symbolic int -2..11; observation path r in {d[k], get, "
                                      "__getitem__, get with default, keys, del+len}",
                               desc=f"after {text!r}: d[k] == v via every read path, key among keys(d), del removes it"))
+    for i, text in enumerate(["d[k1] = v1\nd[k2]", "d[k1] = v1\nd[k2] = v2\nd[k2]", "d[k1] = v1\ndel d[k2]\nlen(d)",
+                              "d[k1] = v1\nget(d, k2)", "d[k2] = v2\nd[k1] = v1\nd[k2]"]):
+        obs.append(Obligation(f"two_keys.t{i}", "xh", "c14", "two_keys", param={"text": text}, timeout=T, extra={"keep_lru_cache": True},
+                              bounds="15 x 15 key pairs (int 1, Decimal 1 / 1.0 / 1.50, True, '1', None, 'None', ...), values symbolic; "
+                                     "functools.lru_cache left active (CrossHair normally bypasses it)",
+                              desc=f"eval({text!r}) vs map model: equal-valued keys with different string forms are different keys"))
     return {
         "obligations": obs,
         "explanation": "CrossHair (z3): one container operation through SqParser.eval (sugar lowered by the real parser) from an arbitrary "
